@@ -209,6 +209,9 @@ def gen(rng, tier):
         "S: A S B | C | EMPTY;\nterminals\nA: 'a';\nB: 'b';\nC: 'ab';\n",
         "S: X X X | X X;\nX: A | B | C;\nterminals\nA: 'a';\nB: 'aa';\nC: 'aaa';\n",
         "S: L R;\nL: L A | A;\nR: B R | B | C;\nterminals\nA: 'a';\nB: 'ab';\nC: 'b';\n",
+        # syntactic AND lexical ambiguity at once: two terminals matching the same text where stacks merge
+        "S: S P S | A | B;\nterminals\nP: 'b';\nA: 'a';\nB: 'a';\n",
+        "S: S S | A | B;\nterminals\nA: 'a';\nB: 'aa';\n",
     ]
     for text in lexlit:
         g = lf.parse_bnf(text)
@@ -402,7 +405,8 @@ def cert_answer(c):
 
 def cert_failures(cases):
     return [c for c in cases if c.dump is not None and cert_answer(c) is not None and
-            (" glr=1" not in " " + cert_answer(c) or "layoutsafe=FAIL" in cert_answer(c))]
+            (" glr=1" not in " " + cert_answer(c) or "layoutsafe=FAIL" in cert_answer(c) or
+             (c.settings[1] == "LALR_RN" and "completeRN=0" in cert_answer(c)))]
 
 
 def cover_failures(cases):
@@ -476,14 +480,18 @@ def check(rep, cases, fcases, proofs_ok, ecases=()):
         if c.dump is None or a is None:
             continue
         rep.count("glr_cert_pass" if " glr=1" in a else "glr_cert_FAIL")
-        ls = a.rsplit("layoutsafe=", 1)[1] if "layoutsafe=" in a else "?"
+        if "completeRN=" in a:
+            # hypothesis of C03_engine_reduction_closure; right-nulled tables must pass, plain LALR tables cannot
+            rep.count(("completeRN_pass:" if "completeRN=1" in a else "completeRN_fail:") + c.settings[1])
+        ls = a.rsplit("layoutsafe=", 1)[1].split(" ")[0] if "layoutsafe=" in a else "?"
         rep.count("layoutsafe:" + {"none": "no Layout rule (void)", "cert": "Cert.glrLayout holds",
                                    "FAIL": "Cert.glrLayout FAILS"}.get(ls, ls))
     rep.counters["glr_certificate_failures"] = len(certf)
     if certf and not failures:
         c = min(certf, key=lambda c: len(c.text))
         rep.violation(dict(c.describe(), why="the table of this grammar fails the Lean certificate Cert.glr / Cert.glrLayout (hypotheses "
-                           "of C03_engine_sound / C03_engine_no_panic_certified): " + cert_answer(c) + " -- soundness and panic freedom "
+                           "of C03_engine_sound / C03_engine_no_panic_certified; for LALR_RN tables also Cert.completeRN, hypothesis of "
+                           "C03_engine_reduction_closure): " + cert_answer(c) + " -- soundness and panic freedom "
                            "of the GLR engine are no longer shown for it; no failing input was found", kind="certificate",
                            n_failures=len(certf)), no_input=True)
     if breaks and not failures and not cf:
